@@ -29,6 +29,14 @@ func (c *Ctx) inFlightContext(f *Func) string {
 }
 
 func rulesC01(c *Ctx) {
+	ruleErrorDiscipline(c, "R-C01-15", "a request that could not be sent completes with that error: no error of a step of the transports' Write (building the request, headers, the HTTP exchange, encoding) is dropped — a dropped one leaves the call waiting for a response to a request that never left", map[string][]string{
+		pM: {"(*streamableClientConn).Write", "(*streamableClientConn).setMCPHeaders", "(*sseClientConn).Write", "(*ioConn).Write", "(*rwc).Write", "(*streamableServerConn).Write", "(*sseServerConn).Write", "(*loggingConn).Write"},
+		pJ: {"(*Connection).write", "(*Connection).Call", "(*Connection).Notify"},
+	}, map[string]string{
+		"(*streamableServerConn).Write:Append":        "a failed append to the event store is collected and reported unless the live delivery succeeded (the message did reach the peer); R-C08-1 pins append-before-delivery",
+		"(*streamableServerConn).Write:deliverLocked": "a failed live delivery is collected and reported unless the message was stored for replay (it is then obtainable by resumption, which is C08's guarantee)",
+		"(*streamableClientConn).setMCPHeaders:Token": "an invalid_grant failure of the token source is deliberately ignored: the request goes out without a credential and the 401 starts the authorization flow; every other failure is returned (R-C01-15 would be too coarse for this two-way branch)",
+	}, true, 5, 10)
 	c.Rule("R-C01-1", "in-flight state is read and written only inside updateInFlight, its closures and inFlightState methods called from them", func() {
 		ifs := c.P.LookupType(pJ, "inFlightState")
 		c.Need(ifs != nil, "type internal/jsonrpc2.inFlightState")
